@@ -461,6 +461,61 @@ pub fn small_fault_sweep(rep: &mut Report, prop: &str) {
 	}
 }
 
+/// C09 under raw faults: a retrying acquisition that has to back off (a later member is held by another thread,
+/// who releases once the caller blocks) while one raw operation panics once. When the call has ended, nothing it
+/// took may stay locked (except a lock whose own release panicked): otherwise the next acquisition over those
+/// members never completes.
+pub fn retry_fault_sweep(rep: &mut Report) {
+	let specs = vec![
+		Spec::Coll(Kind::Retry, vec![Spec::R(0), Spec::R(1), Spec::R(2)]),
+		Spec::Coll(Kind::Retry, vec![Spec::M(0), Spec::R(0), Spec::M(1)]),
+		Spec::Coll(Kind::Retry, vec![Spec::R(2), Spec::R(0)]),
+		Spec::Coll(Kind::Retry, vec![Spec::Coll(Kind::Boxed, vec![Spec::R(1), Spec::R(0)]), Spec::R(2)]),
+		Spec::Coll(Kind::Boxed, vec![Spec::Coll(Kind::Retry, vec![Spec::R(2), Spec::R(0)]), Spec::R(1)]),
+		Spec::Pois(Box::new(Spec::Coll(Kind::Retry, vec![Spec::R(0), Spec::R(1)]))),
+	];
+	let infos: Vec<Option<SpecInfo>> = probe_specs(&specs);
+	let mut base = vec![];
+	for (s, info) in specs.iter().zip(&infos) {
+		let Some(info) = info else { continue };
+		for pos in 1..info.leaves.len() {
+			for held in [1u8, 2] {
+				if held == 1 && !info.is_rw[pos] {
+					continue;
+				}
+				let mut assign = vec![0u8; info.leaves.len()];
+				assign[pos] = held;
+				for f in [Flavour::Guard, Flavour::ScopedLent, Flavour::ScopedOwned] {
+					for write in [true, false] {
+						if (!write && !info.sharable) || (!write && held == 1) {
+							continue;
+						}
+						base.push(FaultCase { spec: s.clone(), assign: assign.clone(), flavour: f, write, fault: None, env_script: vec![], poisoned: false, in_unwind: false });
+					}
+				}
+			}
+		}
+	}
+	let base_out = par_cases(&base, |_, c| run_fault_case(c, false));
+	let mut cases = vec![];
+	for (c, o) in base.iter().zip(&base_out) {
+		for k in 0..o.raw_ops {
+			let mut fc = c.clone();
+			fc.fault = Some(FaultSpec::OneShot { index: k });
+			cases.push(fc);
+		}
+	}
+	let outs = par_cases(&cases, |_, c| run_fault_case(c, false));
+	for (c, o) in base.iter().zip(&base_out).chain(cases.iter().zip(&outs)) {
+		rep.add("back_off_under_raw_fault_cases", 1);
+		for v in &o.violations {
+			if v.prop == "C12" && v.key.starts_with("leak-after-raw-fault|") {
+				rep.violation(Viol { prop: "C09".into(), key: format!("back-off-{}", v.key), detail: v.detail.clone(), replay: json!({"kind": "seq-fault", "case": c}) });
+			}
+		}
+	}
+}
+
 pub fn c06_key_after_fault(rep: &mut Report) {
 	small_fault_sweep(rep, "C06")
 }
